@@ -217,6 +217,12 @@ def run_history(prop, spec, seed, tier, known, ev):
              "const __datadog_test_0 = 1; function f(){ return a + b(); }\n//# sourceMappingURL=data:application/json;base64,eyJ2ZXJzaW9uIjozLCJzb3VyY2VzIjpbImxlYWsudHMiXSwibmFtZXMiOltdLCJtYXBwaW5ncyI6IkFBQUEifQ==",
              "const __datadog_other_0 = 1; function f(){ return a + b(); }\n//# sourceMappingURL=data:application/json;base64,eyJ2ZXJzaW9uIjozLCJzb3VyY2VzIjpbImxlYWsudHMiXSwibmFtZXMiOltdLCJtYXBwaW5ncyI6IkFBQUEifQ==",
              "const __datadog_first_0 = 1; function f(){ return a + b(); }\n//# sourceMappingURL=data:application/json;base64,eyJ2ZXJzaW9uIjozLCJzb3VyY2VzIjpbImxlYWsudHMiXSwibmFtZXMiOltdLCJtYXBwaW5ncyI6IkFBQUEifQ=="]
+    # a bundle whose inline map names several original files (the chained map must list them in the same order every time)
+    import base64 as _b64
+    bundle = "\n".join("function g%d(a){ return a + h%d(); }" % (k, k) for k in range(7))
+    bmap = encode_map([(k, c, k, 3 + k, c, None) for k in range(7) for c in (0, 9, 20)], ["src/part%d.ts" % k for k in range(7)], [], None)
+    pool.append(bundle + "\n//# sourceMappingURL=data:application/json;base64," + _b64.b64encode(bmap.encode()).decode())
+    pool.append("var nothingToDo = 1;\n//# sourceMappingURL=data:application/json;base64," + _b64.b64encode(bmap.encode()).decode())
     cfgs = [dict(vlib.DEFAULT_CFG, chainSourceMap=True), dict(vlib.DEFAULT_CFG, localVarPrefix="other", chainSourceMap=True, comments=True),
             {"localVarPrefix": "zz", "csiMethods": [{"src": "plusOperator", "operator": True}], "telemetryVerbosity": "OFF", "chainSourceMap": True},
             dict(vlib.DEFAULT_CFG, localVarPrefix="first")]
@@ -425,6 +431,10 @@ def run_chain(prop, spec, seed, tier, known, ev):
     for i, q in enumerate(base):
         g = r.fork()
         src = q['src'] if g.chance(1, 2) else layout_program(g)
+        if g.chance(1, 7):
+            # a file with nothing to instrument that still carries a map reference: what it leaves behind must not
+            # reach the files rewritten after it
+            src = "var unmodified%d = %d;" % (i, g.below(100))
         file = g.choice(["test.js", "dir/sub/file.js", "/abs/mod.js"])
         parent = os.path.dirname(file)
         m = gen_orig_map(g, src)
@@ -460,6 +470,10 @@ def run_chain(prop, spec, seed, tier, known, ev):
         reqs.append({"id": "chain-%d" % i, "cfg": cfg, "src": src, "file": file, "files": files, "maps": True,
                      "text_ast": True, "code_ast": True, "tags": ['chain', 'ref%d' % kind, 'style%d' % style]})
     results = vlib.pipeline(reqs, mode='chain')
+    # the requests of one chunk run one after the other in one process: record what ran just before (a replay needs it
+    # when the failure depends on an earlier call)
+    for i, q in enumerate(reqs):
+        q['preceded_by'] = [{'src': p['src'], 'file': p['file']} for p in reqs[max(i - 3, (i // 400) * 400):i]]
     return _collect(prop, spec, results, known, ev, 'modified programs with an original map (random token layouts, several sources, names, sourceRoot, '
                     'sparse lines, segments without source) referenced inline / by relative or absolute file / missing / malformed / index map, '
                     'under {chain, comments} settings; non-trivial = a usable original map was chained')
